@@ -343,7 +343,7 @@ func ruleKeyOf(text string) string {
 func init() {
 	core.Register(&core.Prop{
 		ID: "C05",
-		Rule: "per rule text (phone, email, idcard, ip, ipv4, ipv6, year, year2month/date with 7 separators quoted and unquoted, datetime with every separator triple from {- / . : space _ empty}^3 plus 1- and 2-piece lists, int, ints with default and custom separator, float, re with escaped quote / alternation / comma / message, unique, json, prefix, suffix, in, include with quoted options and values that are runs of options, file, dir incl. symbolic links to a file / a directory / nothing): valid members from a per-rule constructor, every kind of single-character edit of a member (delete / insert / substitute / transpose) and random strings over an alphabet with digits, letters, CJK, punctuation, quotes, tab, NUL and newline; numeric and slice inputs for in/int/ints/float/unique. " +
+		Rule: "[plus: date / datetime texts on every wall-clock time skipped by six daylight-saving zones in 2012-2026, judged with time.Local set to that zone; int on floats with a fractional part] per rule text (phone, email, idcard, ip, ipv4, ipv6, year, year2month/date with 7 separators quoted and unquoted, datetime with every separator triple from {- / . : space _ empty}^3 plus 1- and 2-piece lists, int, ints with default and custom separator, float, re with escaped quote / alternation / comma / message, unique, json, prefix, suffix, in, include with quoted options and values that are runs of options, file, dir incl. symbolic links to a file / a directory / nothing): valid members from a per-rule constructor, every kind of single-character edit of a member (delete / insert / substitute / transpose) and random strings over an alphabet with digits, letters, CJK, punctuation, quotes, tab, NUL and newline; numeric and slice inputs for in/int/ints/float/unique. " +
 			"Verdict through Var (1/8 also through Struct) compared with a hand-written three-valued recogniser (no regexp, no time.Parse). distinct = distinct (rule text, value); non-trivial = recogniser decided in/out (not 'unspecified')",
 		Shards: func(t core.Tier) int { return 16 },
 		Run:    runC05,
